@@ -1,12 +1,20 @@
+import os, subprocess, sys
+
+def _pre(tier):
+    # carrier of the real entry point: a no-libc program that calls parse_cli_args
+    lib = os.path.dirname(os.path.dirname(os.path.abspath(__file__)))
+    return subprocess.call([sys.executable, os.path.join(lib, "build_probes.py"), "probe-cli", "dyn-debug", "pie-release"], stdout=subprocess.DEVNULL)
+
 ID = "C20"
 CFG = {
     "fuzz": [("cli_args", 300)],
     "level": "exploration",
     "engine": "E1 vh",
     "package": "c20", "bin": "c20",
+    "pre": _pre,
     "profiles": ["dev", "release"], "workers": 8,
-    "rule": ("Family of 15 derived shapes (ReqOpt, Aliases, Flags, OptOpt, Rep, Mixed, Pos1, Pos2, PosOpt, Pos3, OptsAndPos, "
-             "Custom, WithSub, WithOptSub, ReqWithSub; subcommand enums Cmd{Run(RunArgs),Clean,Nested(Inner{Leaf})}, "
+    "rule": ("Family of 18 derived shapes (ReqOpt, Aliases, Flags, OptOpt, Rep, Mixed, Pos1, Pos2, PosOpt, Pos3, OptsAndPos, "
+             "Custom, WithSub, WithOptSub, ReqWithSub, Cased, Hosty, Entry; subcommand enums Cmd{Run(RunArgs),Clean,Nested(Inner{Leaf})}, "
              "Leaf{Alpha,BetaGamma(LeafOpts)}) written in the harness, derives from /repo/tiny-cli. "
              "rt: a value of the shape is generated constructively (strings with spaces, leading dashes, '=', unicode, "
              "control characters, empty, up to 10 kB; non-UTF-8 bytes for UnixStr fields; full-range integers; values equal to "
@@ -19,12 +27,15 @@ CFG = {
              "accepted value agree with a hand-written recogniser of the declared grammar on every line that is not "
              "ambiguous under the declaration. cause-buf: every filler length 0..=200 (and 255..10000) of an echoed error "
              "text through three error sites, in 1/2/3/7 write pieces (enumerated): a cause that fits 128 bytes is reported "
-             "verbatim. help-text: every struct level's help names every declared word (enumerated). Arguments end at a "
+             "verbatim. entry: the real entry point - a no-libc program (probes/cli, dyn-debug and pie-release) started with the "
+             "generated line calls parse_cli_args::<Entry>(); differential against the in-process parse of the same struct: "
+             "parsed => exit 0 and exactly that value on stdout, rejected => exit 1, nothing on stdout, stderr = the error's "
+             "Display plus newline. help-text: every struct level's help names every declared word (enumerated). Arguments end at a "
              "PROT_NONE page. Non-trivial = round trip with >=2 option occurrences not in declaration order, or a rejected "
              "line whose cause overflowed the buffer, or a cause within 8 bytes of the buffer size; distinct by hash of the "
              "serialised case."),
     "assumptions": [
-        "x86_64 only; the derive is exercised on the 15 shapes of the family (one compile-time instantiation each), not on generated struct declarations",
+        "x86_64 only; the derive is exercised on the 18 shapes of the family (one compile-time instantiation each), not on generated struct declarations",
         "declared grammar = options (each single-valued option at most once, value = next argument whatever it looks like), "
         "then positionals in declaration order (an argument that is no option token and no help token fills the next free slot, "
         "also when it starts with '-': required by the round-trip clause), then at most one subcommand which owns the rest of the line",
@@ -48,7 +59,8 @@ CFG = {
            "robust:help-request", "robust:help-request-in-subcommand", "robust:overflow-cause",
            "robust:option-missing-value-at-end", "robust:non-utf8-arg", "robust:empty-arg", "robust:arg-1kB+",
            "robust:why-malformed-value", "robust:why-unknown-argument", "robust:why-required-missing",
-           "cause-buf:exact-fit-128", "cause-buf:overflow-by-one", "cause-buf:multi-piece", "help-text:with-commands"]
+           "cause-buf:exact-fit-128", "cause-buf:overflow-by-one", "cause-buf:multi-piece", "help-text:with-commands",
+           "entry:entry-parsed", "entry:entry-rejected-with-help-on-stderr", "entry:build dyn-debug", "entry:build pie-release"]
     ),
     "technique": "property-based testing (proptest) against a hand-written recogniser of the declared grammar; enumerated cause-buffer boundary",
     "level_text": "exploration",
